@@ -413,10 +413,15 @@ class VTime(object):
     self.sched = None
     self.base = 1000000.0
     self.offset = 0.0        # used when no scheduler is attached
+    self.jitter = 0.0        # a clock that moves by this much with every look at it (a loaded machine, a thread that lost the CPU)
 
   def time(self):
     if self.sched is not None:
+      if self.jitter:
+        self.sched.now += self.jitter
       return self.base + self.sched.now
+    if self.jitter:
+      self.offset += self.jitter
     return self.base + self.offset
 
   def sleep(self, d):
